@@ -11,7 +11,7 @@ CHECKS = {
          "the fairness budgets recorded in each spec define 'fair share'; simnet's UDP model"),
  "C03": ("exploration", "§3 C03", "Write-then-close scripts on both transports and both roles with faults aimed at the datagrams in flight at close time; oracle: all bytes before EOF, or an error - never EOF after a strict prefix.",
          "only the direction written by the closing side is judged"),
- "C04": ("fault_enumeration", "§3 C04", "One in-path mutation per run, positions enumerated from the byte geometry that the reference decoder recorded in a fault-free reference pass of the same seed: every segment x field class x offsets x {flip, substitute, insert, delete, truncate} plus whole-segment swap/duplicate/remove/splice; random shapes on top. Oracle: delivered bytes are a prefix (TCP) / the intact stream (UDP); no crash. Exhaustive for the stated positions of the listed shapes (thorough tier), shapes sampled. UDP also: whole-datagram duplicate/drop/reorder, reflection into the opposite direction of the same session, splices from a session in progress on another flow.",
+ "C04": ("fault_enumeration", "§3 C04", "One in-path mutation per run, positions enumerated from the byte geometry that the reference decoder recorded in a fault-free reference pass of the same seed: every segment x field class x offsets x {flip, substitute, insert, delete, truncate} plus whole-segment swap/duplicate/remove/splice; random shapes on top. Oracle: delivered bytes are a prefix (TCP) / the intact stream (UDP); no crash. The enumerated list is exhaustive for the stated positions of the chosen shapes; each tier runs a strided, seed-offset subset of it (quick 1400, thorough 40 000 of about 200 000). UDP also: whole-datagram duplicate/drop/reorder, reflection into the opposite direction of the same session, splices from a session in progress on another flow.",
          "determinism (one seed = one execution) makes the reference geometry valid up to the mutation point; only causal splices (source emitted before the target) are generated"),
  "C05": ("fault_enumeration", "§3 C05", "Attacker actors without a credential beside genuine traffic; enumerated: every prefix and single-bit mutation of a genuine first segment (TCP and UDP), plus random strings, truncations and reference-encoded handshakes under foreign credentials / stolen hints. Oracle over the whole run: zero bytes or datagrams from the server to an attacker address, no Accept, no session, genuine workload intact. On-path variant: the genuine first segment is swallowed and a truncation of it sent from elsewhere (one victim per truncation); bit flips presented after the copied session has ended and been forgotten.",
          "attackers are identified by source address; copies of genuine traffic are presented only after the server has answered the original (otherwise the copy is the original)"),
